@@ -26,8 +26,13 @@ def examples(tier):
     return 3200 if tier == "quick" else 60000
 
 
+# one case in four: two pids that are canonically equivalent Unicode strings (NFC / NFD) - different identifiers
+PIDS_NORM = ["doi:10.1/x", "caf\u00e9:10.1/x", "cafe\u0301:10.1/x", "10.1/x"]
+
+
 @st.composite
 def _case(draw, tier):
+    PIDS = draw(st.sampled_from([globals()["PIDS"]] * 3 + [PIDS_NORM]))
     cfg = draw(gen.store_cfgs())
     cs = [draw(gen.contents(max_small=12, big=False)), draw(gen.contents(max_small=12))]
     algo = cfg["algo"]
@@ -50,7 +55,7 @@ def _case(draw, tier):
         (1, ops.decoy_op(PIDS)),
         (1, ops.REOPEN))
     return {"cfg": cfg, "contents": cs, "docs": [{"hex": "6d"}],
-            "ops": draw(st.lists(ops.on_instances(op), min_size=2, max_size=30))}
+            "ops": draw(ops.history(ops.on_instances(op), 2, 30))}
 
 
 def strategy(tier):
